@@ -172,7 +172,8 @@ Definition loadConfig (captured : sess) (i : input) : res (option subnet * optio
 
 Definition new (c : cfg) (captured : sess) (i : input) : res dstate :=
   if negb (pvalid (c_netfilter c)) then Err EInvalidIP
-  else if negb (contains (c_home c) (paddr (c_netfilter c))) then Err EInvalidIP
+  else if negb (contains (c_home c) (paddr (c_netfilter c))) || (pbits (c_netfilter c) <? pbits (c_home c))
+  then Err EInvalidIP                       (* netfilter subnet not inside the home LAN (prefix check: /repo 7a8efa9) *)
   else
     match loadConfig captured i with
     | Panic => Panic          (* not reached: C18_new_total *)
